@@ -75,7 +75,7 @@ class Scratch:
             self._native[profile] = os.path.join(tgt, profile, "examples", "verif_driver")
         return self._native[profile]
 
-    def run_native(self, inputs, profile="debug", mdt=None):
+    def run_native(self, inputs, profile="debug", mdt=None, sleep_ms=None):
         """inputs: list of str (or (str, mdt) pairs).  Returns list of dict key->str."""
         exe = self.native(profile)
         lines = []
@@ -86,7 +86,8 @@ class Scratch:
                 l += " x" + m.encode("utf-8").hex()
             lines.append(l)
         data = "\n".join(lines) + "\n"
-        r = subprocess.run([exe], input=data, capture_output=True, text=True, timeout=600)
+        env = dict(os.environ, VERIF_DRIVER_SLEEP_MS=str(sleep_ms)) if sleep_ms else None
+        r = subprocess.run([exe], input=data, capture_output=True, text=True, timeout=600, env=env)
         if r.returncode != 0:
             raise Inconclusive("native driver crashed: rc=%s %s" % (r.returncode, r.stderr[-2000:]))
         out = []
@@ -100,11 +101,12 @@ class Scratch:
             raise Inconclusive("native driver answered %d of %d requests" % (len(out), len(inputs)))
         return out
 
-    def run_native_history(self, expr, paths, profile="debug"):
+    def run_native_history(self, expr, paths, profile="debug", sleep_ms=None):
         """one compiled value rendered for each path in turn -> list of programs (None when the expression does not compile)"""
         exe = self.native(profile)
         line = " ".join("x" + t.encode("utf-8").hex() for t in [expr] + list(paths)) + "\n"
-        r = subprocess.run([exe], input=line, capture_output=True, text=True, timeout=600)
+        env = dict(os.environ, VERIF_DRIVER_SLEEP_MS=str(sleep_ms)) if sleep_ms else None
+        r = subprocess.run([exe], input=line, capture_output=True, text=True, timeout=600, env=env)
         if r.returncode != 0:
             raise Inconclusive("native driver crashed: rc=%s %s" % (r.returncode, r.stderr[-2000:]))
         d = {}
